@@ -25,7 +25,13 @@ using vf::CVecL;
 typedef Eigen::Index Index;
 typedef Eigen::Matrix<char, Eigen::Dynamic, Eigen::Dynamic> Mask;
 
-static const ld CTOL = 64;  // constant on every rounding term (DESIGN section 3)
+// constant on every rounding term (DESIGN section 3). C11_CTOL_OVERRIDE is a calibration aid only (build a binary with a
+// smaller constant to let rapidcheck shrink the case with the worst observed ratio); it is never set by props_d/c11.py.
+#ifdef C11_CTOL_OVERRIDE
+static const ld CTOL = C11_CTOL_OVERRIDE;
+#else
+static const ld CTOL = 64;
+#endif
 
 // ---------------------------------------------------------------------------------------------------------------
 // scalar descriptions
@@ -672,6 +678,14 @@ inline std::string flags_name(int f) { return f == Eigen::RowMajor ? "RowMajor" 
 template <typename Idx>
 inline const char* idx_name() { return sizeof(Idx) == sizeof(int) ? "int" : "long"; }
 
+// observed/bound ratios of the running case; they enter the report only when the whole case has passed (a case that ends in a
+// known finding must not leave the ratio of its earlier, accidentally passing comparisons in the calibration record)
+inline std::vector<std::pair<std::string, double>>& pending_stats()
+{
+    static std::vector<std::pair<std::string, double>> p;
+    return p;
+}
+
 // ||got - want|| <= CTOL * unit, where unit = n eps (norm expression the property states); records the observed ratio
 inline void check_close(const CVecL& got, const CVecL& want, ld unit, const char* kind, const std::string& what, const std::string& stat)
 {
@@ -680,7 +694,7 @@ inline void check_close(const CVecL& got, const CVecL& want, ld unit, const char
     const ld err = (got - want).norm();
     VF_CHECK(err <= CTOL * unit, kind, what << ": ||computed - reference|| = " << vf::num(err) << " > 64 * " << vf::num(unit) << " (||reference|| = " << vf::num(want.norm()) << ")");
     if (unit > 0)
-        vf::report().stat(stat, (double) (err / unit));
+        pending_stats().push_back(std::make_pair(stat, (double) (err / unit)));
 }
 
 // registry of instantiations inside one TU
@@ -700,7 +714,11 @@ inline void run_registered(vf::Draw& d, vf::Case& c)
     long k = d.range("instantiation", 0, (long) r.size() - 1);
     c.cls("inst/" + r[k].name);
     c.sfeat["inst"] = r[k].name;
+    pending_stats().clear();
     r[k].fn(d, c);
+    for (const auto& kv : pending_stats())
+        vf::report().stat(kv.first, kv.second);
+    pending_stats().clear();
 }
 
 }  // namespace c11
